@@ -1298,7 +1298,7 @@ def classify(problem, cse_tree):
         bs = _find_binding_of_use(cse_tree, name)
         for form, _, value in bs:
             hs = _heads(value)
-            if form == 'Let' and ('StreamAgg' in hs or 'StreamAggScan' in hs):
+            if 'StreamAgg' in hs or 'StreamAggScan' in hs:
                 # the lifted value contains a local aggregation whose body mentions the variable
                 return 'cse/local-aggregation-lifted-above-binder-of-its-result-variable'
         if bs:
